@@ -473,3 +473,15 @@ def c10(ctx):
     ctx.design("Group", "MC_Group_quick.cfg" if q else "MC_Group_thorough.cfg")
     n, ops = (8, 30) if q else (120, 60)
     ctx.gv("three-node-histories", "Trace_Group", ["group", "--seed", str(seed()), "--n", str(n), "--ops", str(ops)], racy=True)
+
+
+@check("C05")
+def c05(ctx):
+    ctx.assumptions += ["leader and follower are one-node clusters in this process; the replication services run on a real gRPC loopback listener; timers are shortened (poll 15 ms, lease 10 ms, reconcile 40 ms)",
+                        "the follower is sampled as (recorded leader index, full content, recorded leader index); content is compared with the leader content at that index when the index did not move during the read",
+                        "after a follower engine restart the table manager's reconcile pass is triggered through the verif export instead of waiting 30 s",
+                        "proposal timeouts with late commits (Replication.tla deviation DupApplyAfterProposeTimeout) are a design-level finding that was not reproduced on the real code and is not part of this verdict"]
+    q = ctx.quick
+    ctx.design("Replication", "MC_Replication_quick.cfg" if q else "MC_Replication_thorough.cfg")
+    n, ops = (10, 60) if q else (150, 120)
+    ctx.gv("leader-follower-histories", "Trace_Repl", ["repl", "--seed", str(seed()), "--n", str(n), "--ops", str(ops)], racy=True)
